@@ -2221,3 +2221,84 @@ theorem api_same_values (c : Config) (k : String) (v : Val) (hv : checkVal k v =
       rw [dispatch_other k this, dispatch_other k this]; exact (hstore k').1
 
 end RF.Lemmas.Config
+
+/-! ## `apply_to` does not depend on the order of the `--config` pairs -/
+
+namespace RF.Lemmas.Config
+open RF.Config RF.Gen.Options
+
+theorem heurOK_setWasSetCli (c : Config) (k : String) (h : HeurOK c) :
+    HeurOK (setWasSetCli c k) := by
+  unfold HeurOK setWasSetCli
+  rw [getE_upd]
+  by_cases hk : "use_small_heuristics" = k
+  · subst hk
+    simp only [if_true]
+    exact h
+  · simp only [hk, if_false]; exact h
+
+theorem heurOK_configSet (c c' : Config) (k : String) (v : Val)
+    (h : configSet c k v = some c') (hi : HeurOK c) : HeurOK c' := by
+  unfold configSet at h
+  split at h
+  · next hv =>
+    cases h
+    exact (heurOK_dispatch _ _ _).2 (heurOK_store c k _ v (fun _ => rfl) hv hi)
+  · cases h
+
+theorem heurOK_configSetCli (c c' : Config) (k : String) (v : Val)
+    (h : configSetCli c k v = some c') (hi : HeurOK c) : HeurOK c' := by
+  unfold configSetCli at h
+  split at h
+  · next hv =>
+    cases h
+    exact (heurOK_dispatch _ _ _).2
+      (heurOK_setWasSetCli _ _ (heurOK_store c k _ v (fun _ => rfl) hv hi))
+  · cases h
+
+theorem heurOK_applyFlagCalls (calls : List (Bool × String × Val)) (c c' : Config)
+    (h : applyFlagCalls calls c = some c') (hi : HeurOK c) : HeurOK c' := by
+  induction calls generalizing c with
+  | nil => simp only [applyFlagCalls] at h; cases h; exact hi
+  | cons p r ih =>
+    obtain ⟨cli, k, v⟩ := p
+    simp only [applyFlagCalls] at h
+    cases h1 : (if cli then configSetCli c k v else configSet c k v) with
+    | none => simp [h1] at h
+    | some c1 =>
+      simp only [h1] at h
+      refine ih c1 h ?_
+      cases cli
+      · exact heurOK_configSet c c1 k v h1 hi
+      · exact heurOK_configSetCli c c1 k v h1 hi
+
+/-- Among pairs with distinct keys at most one has the key `max_width`, so two orders of the same
+pairs have the same `max_width` part. -/
+theorem filter_max_width_eq (l1 l2 : List (String × Val)) (hp : l1.Perm l2)
+    (hnd : (l1.map (·.1)).Nodup) :
+    l1.filter (fun kv => kv.1 == "max_width") = l2.filter (fun kv => kv.1 == "max_width") := by
+  have hpf := hp.filter (fun kv => kv.1 == "max_width")
+  have hn : ((l1.filter (fun kv => kv.1 == "max_width")).map (·.1)).Nodup :=
+    (List.filter_sublist.map _).nodup hnd
+  have hall : ∀ kv ∈ l1.filter (fun kv => kv.1 == "max_width"), kv.1 = "max_width" := by
+    intro kv hkv
+    have := (List.mem_filter.1 hkv).2
+    simpa using this
+  cases hm : l1.filter (fun kv => kv.1 == "max_width") with
+  | nil =>
+    rw [hm] at hpf
+    exact (List.nil_perm.1 hpf).symm ▸ rfl
+  | cons a r =>
+    cases r with
+    | nil =>
+      rw [hm] at hpf
+      exact (List.singleton_perm.1 hpf).symm ▸ rfl
+    | cons b r' =>
+      exfalso
+      rw [hm] at hn hall
+      have ha := hall a (by simp)
+      have hb := hall b (by simp)
+      simp only [List.map_cons, List.nodup_cons, List.mem_cons, not_or] at hn
+      exact hn.1.1 (ha.trans hb.symm)
+
+end RF.Lemmas.Config
